@@ -1,7 +1,7 @@
 SPECIFICATION TSpec
 CONSTANTS
  MaxUpdates = 50
- MaxReinit = 5  FixLostWorker = TRUE
+ MaxReinit = 5  BSChoices = {} FixBlockSize = TRUE  FixLostWorker = TRUE
  CountCalls = TRUE
  NW <- TrNW  BS <- TrBS  Total <- TrTotal  Chunk = 16384  Timeout <- TrTimeout  Spurious = TRUE  MayFail = TRUE
  Gives = {}  Spaces = {}  FlushActs = {}  HdrSz = 12  TailSz = 0
